@@ -8,7 +8,7 @@ CONSTANTS
   AllowExcl = TRUE
   AllowCat3 = FALSE
   AllowReuse = FALSE
-  Extras = TRUE
+  Extras = "pit"
   AllowFindings = FALSE
 INVARIANT InvToldIsActual
 INVARIANT InvAddAligned
